@@ -464,6 +464,14 @@ class PoolGen:
         if rng.random() < 0.4:
             self.add("delta", [rng.choice([2, 3]), rng.choice([1, 2])], tag="tensor")
 
+        if rng.random() < 0.08:
+            # coefficient vectors as they come out of a computation: one entry is rounding noise relative to the rest
+            # (a "cubic" whose leading coefficient is 1e-18, a point whose last coordinate is 3e-17)
+            c_ = [rng.choice([1e-18, -3e-17, 2e-16]), 1.0, float(rng.randint(-3, 3)), float(rng.randint(1, 3))]
+            rng.shuffle(c_)
+            pn = self.add("point", [c_[: rng.choice([3, 4])]], {"how": "nocopy", "dt": "f"}, tag="aux")
+            for op_ in rng.sample(["u_roots_arr", "u_roots_tensor", "repr", "is_zero", "u_is_multiple_all"], 2):
+                self.script.append({"op": op_, "args": [pn] if op_ != "u_is_multiple_all" else [pn, pn]})
         self.scenarios(d)
         # tensor diagrams over pool objects (calculate()/copy() are queries on them; builder calls are not generated)
         if rng.random() < 0.5:
